@@ -1266,7 +1266,8 @@ pub fn orchestrate(a: OrchArgs) -> i32 {
     );
     if !zero_probes.is_empty() {
         println!("warning: probes stuck at zero: {:?}", zero_probes);
-        if a.tier == Tier::Thorough && exit == 0 && a.runs.is_none() {
+        // the gate applies to the full thorough budget; VERIF_ENFORCE_PROBES=1 applies it to a reduced budget (VERIF_RUNS) as well
+        if a.tier == Tier::Thorough && exit == 0 && (a.runs.is_none() || std::env::var("VERIF_ENFORCE_PROBES").is_ok()) {
             harness_error("required probes never fired in a thorough run; the workload no longer reaches the branch the property is about");
         }
     }
